@@ -41,6 +41,45 @@ TRUTHY = [True, 1, "yes"]
 FALSY = [False, 0, ""]
 FAILS = ["ValueError", "ImportError", "SyntaxError", "ModuleNotFoundError", "ZeroDivisionError"]
 
+# How calling a mode class fails (class key "how" when "raises" is true; the model only hears "the call raises"):
+#   init              __init__ raises (c14_rt.Base.__init__, after logging the call)
+#   new               the class's __new__ raises
+#   meta              the metaclass's __call__ raises
+#   abstract          abc.ABC with an abstract method left unimplemented; the class's own __new__ logs the call and
+#                     delegates to object.__new__, which raises TypeError
+#   abstract_plain    the same without any __new__: nothing of the class runs, the call leaves no trace in the log
+#   needs_args        __init__(self, c14_ctor_fail_arg): TypeError; a __new__(cls, *a, **kw) logs the call first
+#   needs_args_plain  the same without __new__: no trace in the log
+CTOR_FAILS = ["init", "new", "meta", "abstract", "abstract_plain", "needs_args", "needs_args_plain"]
+# ... and class machinery that must NOT count as failing ("how" of a class that constructs):
+#   abc_concrete      abc.ABC subclass without abstract methods;  abc_implemented  abstract method declared by a
+#   helper base of the module and implemented;  meta_ok  a metaclass whose __call__ delegates;  new_ok  own __new__
+CTOR_FLAVOURS = ["abc_concrete", "abc_implemented", "meta_ok", "new_ok"]
+
+# How the __path__ of an implicit (namespace) package looks (pkg key "nspath", only with "namespace"):
+#   once         one directory                         twice        the directory is on sys.path twice
+#   thrice       ... three times                       split        two directories, each with some of the modules
+#   split_twice  two directories, the first listed again after the second
+NS_PATHS = ["once", "twice", "thrice", "split", "split_twice"]
+
+
+def how_of(c):
+    """the constructor behaviour of a class of a layout"""
+    if c.get("raises"):
+        return c.get("how") if c.get("how") in CTOR_FAILS else "init"
+    return c.get("how") if c.get("how") in CTOR_FLAVOURS else None
+
+
+def ns_kind(pkg):
+    if pkg.get("kind") == "present" and pkg.get("namespace") and pkg.get("nspath") in NS_PATHS:
+        return pkg["nspath"]
+    return "once"
+
+
+def portion_of(pkg, m):
+    """which directory of the package a module lives in (0: under base, 1: under the second root)"""
+    return 1 if ns_kind(pkg) in ("split", "split_twice") and m.get("portion") else 0
+
 # How importing the package itself can fail although the package exists (its own __init__.py, or the __init__.py
 # of its parent package, does not run through).  "dotted": needs a parent package.
 PKG_FAIL_KINDS = {
@@ -86,8 +125,11 @@ def gen_cls(r, cname, mnames, faulty):
         c["default"] = r.choice(TRUTHY)
     elif k < 0.32:
         c["default"] = r.choice(FALSY)
-    if faulty and r.random() < 0.12:
+    if faulty and r.random() < 0.14:
         c["raises"] = True
+        c["how"] = r.choice(CTOR_FAILS)
+    elif r.random() < 0.15:
+        c["how"] = r.choice(CTOR_FLAVOURS)
     return c
 
 
@@ -118,6 +160,8 @@ def make_clean(r, case):
     for m in case["pkg"]["modules"]:
         for c in m["classes"]:
             c["raises"] = False
+            if c.get("how") in CTOR_FAILS:
+                c["how"] = None
             if c["mode"] is None or truth(c["disabled"]):
                 continue
             while c["mode"] in seen:
@@ -149,8 +193,9 @@ def gen_layout(r, idx):
         pkg["kind"] = r.choice(sorted(PKG_FAIL_KINDS))
         if PKG_FAIL_KINDS[pkg["kind"]]:
             pkg["dotted"] = True
-    elif k < 0.2:
+    elif k < 0.27:
         pkg["namespace"] = True
+        pkg["nspath"] = r.choice(["once", "twice", "twice", "thrice", "split", "split", "split_twice"])
     faulty = r.random() < 0.5
     nm = r.choice([0, 1, 1, 2, 2, 2, 2, 3, 3, 3, 4])
     stems = r.sample(STEMS, nm)
@@ -161,6 +206,8 @@ def gen_layout(r, idx):
         pool = ["one"]
     for s in stems:
         m = {"stem": s, "fail": None, "classes": [], "junk": r.random() < 0.5}
+        if pkg.get("nspath") in ("split", "split_twice"):
+            m["portion"] = r.choice([0, 1])
         if faulty and r.random() < 0.13:
             m["fail"] = r.choice(FAILS)
         for cn in sorted(r.sample(CNAMES, r.choice([0, 1, 2, 2, 3, 3, 4]))):
@@ -180,7 +227,7 @@ def key_pool(case, base):
     for stem, c in needed_classes(case):
         names.append(c["mode"])
         if case["fms"] and r_dup(case, c["mode"]):
-            names.append(c["cname"] + "_" + os.path.join(pkg_dir(case["pkg"], base), stem + ".py"))
+            names.append(c["cname"] + "_" + mod_file(case["pkg"], base, stem))
     return names
 
 
@@ -381,6 +428,45 @@ EDGE_CASES = [
     (False, [], [["start", None, None, 0], ["disable"]], {"kind": "missing"}),
     (False, [], [], {"kind": "missing", "dotted": True}),
     (False, [], [], {"kind": "missing_sub", "dotted": True}),
+    # constructors that fail without an __init__ that raises: the class cannot be instantiated at all
+    (False, [("alpha", None, [("A", "one", None, None, "abstract_plain"), ("B", "two", None, True, False)])], []),
+    (False, [("alpha", None, [("A", "one", None, None, "abstract")]), ("beta", None, [("B", "two", None, None, False)])], []),
+    (False, [("alpha", None, [("B", "two", None, None, "abc_concrete")]), ("beta", None, [("A", "one", None, None, "meta")])], []),
+    (False, [("alpha", None, [("A", "one", None, None, "new")])], []),
+    (False, [("alpha", None, [("A", "one", None, None, "needs_args_plain")])], []),
+    (False, [("alpha", None, [("A", "one", None, None, "needs_args"), ("B", "two", None, None, "abc_implemented")])], []),
+    (True, [("alpha", None, [("A", "one", None, True, "abstract"), ("B", "two", None, None, "abc_implemented"),
+                             ("C", "three", None, None, "meta"), ("D", "four", None, None, "meta_ok")]),
+            ("beta", None, [("A", "five", None, None, "new"), ("B", "six", None, None, "new_ok"),
+                            ("C", "seven", None, None, "needs_args"), ("Z9", "eight", None, None, "abc_concrete")])],
+     [["start", None, "two", 0], ["periodic", 20000], ["disable"], ["run", "six", None, 0, 2, 20000, "disable"]]),
+    (True, [("alpha", None, [("A", "one", None, None, "abstract_plain"), ("B", "two", None, True, False),
+                             ("C", "three", None, None, "needs_args_plain")])],
+     [["start", None, None, 0], ["periodic", 1000], ["disable"]]),
+    (False, [("alpha", None, [("A", "one", None, True, "abc_concrete"), ("B", "two", None, None, "abc_implemented"),
+                              ("C", "three", None, None, "meta_ok"), ("D", "four", None, None, "new_ok")])],
+     [["start", None, None, 0], ["periodic", 20000], ["disable"], ["start", None, "three", 0], ["disable"]]),
+    (False, [("alpha", None, [("A", "one", True, None, "abstract_plain"), ("B", None, None, None, "abstract"),
+                              ("C", "three", None, None, False)])], [["start", None, "three", 0], ["disable"]]),
+    # implicit (namespace) packages: __path__ with one directory, the same directory again, two directories
+    (False, [("alpha", None, [("A", "one", None, True, False)]), ("beta", None, [("B", "two", None, None, False)])],
+     [["start", None, None, 0], ["periodic", 20000], ["disable"]], {"namespace": True, "nspath": "twice"}),
+    (True, [("alpha", None, [("A", "one", None, True, False)]), ("beta", None, [("B", "two", None, None, False)])],
+     [["start", None, "two", 0], ["periodic", 20000], ["disable"]], {"namespace": True, "nspath": "twice"}),
+    (False, [("alpha", None, [("A", "one", None, None, False)])], [], {"namespace": True, "nspath": "thrice"}),
+    (False, [("alpha", None, [("A", "one", None, True, False)], 0), ("beta", None, [("B", "two", None, None, False)], 1),
+             ("gamma", None, [("C", "three", None, None, False)], 1)],
+     [["run", None, "three", 0, 2, 20000, "disable"]], {"namespace": True, "nspath": "split"}),
+    (True, [("alpha", None, [("A", "one", None, None, False)], 1), ("beta", None, [("B", "one", None, None, False)], 0)],
+     [["start", "one", None, 0], ["disable"]], {"namespace": True, "nspath": "split_twice"}),
+    (False, [("alpha", None, [("A", "one", None, None, False)], 0), ("beta", None, [("B", "two", None, True, False)], 1)],
+     [["start", None, None, 0], ["disable"]], {"namespace": True, "nspath": "split_twice", "dotted": True}),
+    (False, [("alpha", None, [("A", "one", None, None, False)])], [["start", None, "one", 0], ["disable"]],
+     {"namespace": True, "nspath": "twice", "dotted": True}),
+    (False, [("alpha", None, [("A", "one", None, None, False)], 0), ("beta", None, [("B", "one", None, None, False)], 1)],
+     [], {"namespace": True, "nspath": "split"}),
+    (False, [("alpha", None, [("A", "one", None, None, False)], 0), ("beta", "ValueError", [], 1)],
+     [], {"namespace": True, "nspath": "split"}),
 ]
 
 
@@ -391,10 +477,14 @@ def edge_cases(base, start_idx):
         pkg = {"kind": "present", "namespace": False, "dotted": False, "modules": [], "init_classes": [],
                "hidden": False, "txt": False, "subpkg": False, "name": "c14p%05d" % (start_idx + k)}
         pkg.update(ec[3] if len(ec) > 3 else {})
-        for stem, fail, cls in mods:
+        for mod in mods:
+            stem, fail, cls = mod[:3]
             pkg["modules"].append({"stem": stem, "fail": fail, "junk": False, "classes": [
-                {"cname": cn, "mode": mo, "mn_none": False, "disabled": di, "default": de, "raises": ra}
+                {"cname": cn, "mode": mo, "mn_none": False, "disabled": di, "default": de,
+                 "raises": ra is True or ra in CTOR_FAILS, "how": ra if isinstance(ra, str) else None}
                 for (cn, mo, di, de, ra) in cls]})
+            if len(mod) > 3:
+                pkg["modules"][-1]["portion"] = mod[3]
         out.append({"idx": start_idx + k, "fms": fms, "pkg": pkg, "ops": ops})
     return out
 
@@ -458,7 +548,7 @@ def init_source(pkg):
     """the package's own __init__.py"""
     kind = pkg["kind"]
     name = pkg_import_name(pkg)
-    src = "import c14_rt\n\n"
+    src = "import abc\nimport c14_rt\n\n"
     if kind == "initfails_exc":
         src += "raise ValueError('c14-pkg-fail')\n"
     elif kind == "initfails_dep":
@@ -508,8 +598,58 @@ def pkg_dir(pkg, base):
     return os.path.join(base, pkg["name"])
 
 
+def second_root(base):
+    """the second directory on sys.path that contributes modules to a split namespace package"""
+    return base + "2"
+
+
+def pkg_dirs(pkg, base):
+    """the directories of the package: [primary] or, for a split namespace package, [primary, the one under the
+    second root]"""
+    d = pkg_dir(pkg, base)
+    if ns_kind(pkg) in ("split", "split_twice"):
+        return [d, pkg_dir(pkg, second_root(base))]
+    return [d]
+
+
+def mod_file(pkg, base, stem):
+    """the path of a module file as glob() will return it"""
+    por = 0
+    for m in pkg.get("modules", []):
+        if m["stem"] == stem:
+            por = portion_of(pkg, m)
+    return os.path.join(pkg_dirs(pkg, base)[por], stem + ".py")
+
+
+def expected_nspath(pkg, base):
+    """the __path__ an implicit package is meant to have (sorted), None for a regular package"""
+    if pkg.get("kind") != "present" or not pkg.get("namespace"):
+        return None
+    ds = pkg_dirs(pkg, base)
+    return sorted({"once": [ds[0]], "twice": [ds[0]] * 2, "thrice": [ds[0]] * 3, "split": ds,
+                   "split_twice": [ds[0], ds[0], ds[-1]]}[ns_kind(pkg)])
+
+
+def top_is_namespace(pkg):
+    """a dotted implicit package gets several portions only through an implicit parent"""
+    return bool(pkg.get("dotted")) and ns_kind(pkg) != "once"
+
+
 def cls_source(stem, c):
-    lines = ["class %s(c14_rt.Base):" % c["cname"]]
+    how = how_of(c)
+    cn = c["cname"]
+    pre = ""
+    bases = "c14_rt.Base"
+    if how in ("abstract", "abstract_plain", "abc_concrete"):
+        bases += ", abc.ABC"
+    elif how == "abc_implemented":
+        pre = ("class _Abs%s(abc.ABC):\n    @abc.abstractmethod\n    def c14_step(self):\n        ...\n\n" % cn)
+        bases += ", _Abs%s" % cn
+    elif how == "meta":
+        bases += ", metaclass=c14_rt.FailingMeta"
+    elif how == "meta_ok":
+        bases += ", metaclass=c14_rt.PassingMeta"
+    lines = ["class %s(%s):" % (cn, bases)]
     if c["mode"] is not None:
         lines.append("    MODE_NAME = %r" % c["mode"])
     elif c.get("mn_none"):
@@ -518,12 +658,32 @@ def cls_source(stem, c):
         lines.append("    DISABLED = %r" % (c["disabled"],))
     if c["default"] is not None:
         lines.append("    DEFAULT = %r" % (c["default"],))
-    lines.append("    _c14 = (%r, %r, %r)" % (stem, c["cname"], bool(c["raises"])))
-    return "\n".join(lines) + "\n\n"
+    lines.append("    _c14 = (%r, %r, %r)" % (stem, cn, bool(c["raises"]) and how == "init"))
+    if how == "new":
+        lines += ["    def __new__(cls, *a, **kw):", "        c14_rt.attempt(cls)",
+                  "        raise ArithmeticError('c14-ctor-fail in __new__ of %s.%s')" % (stem, cn)]
+    if how in ("abstract", "needs_args", "new_ok"):
+        lines += ["    def __new__(cls, *a, **kw):", "        c14_rt.attempt(cls)" if how != "new_ok" else "        pass",
+                  "        return super().__new__(cls)"]
+    if how in ("abstract", "abstract_plain"):
+        lines += ["    @abc.abstractmethod", "    def c14_ctor_fail_step(self):", "        ..."]
+    if how == "abc_implemented":
+        lines += ["    def c14_step(self):", "        return 1"]
+    if how in ("needs_args", "needs_args_plain"):
+        lines += ["    def __init__(self, c14_ctor_fail_arg, *a, **kw):", "        super().__init__(*a, **kw)"]
+    return pre + "\n".join(lines) + "\n\n"
+
+
+def helper_members(c):
+    """class members of the module that come with a class of the layout (inspect.getmembers sees them too)"""
+    if how_of(c) == "abc_implemented":
+        return [{"cname": "_Abs" + c["cname"], "mode": None, "mn_none": False, "disabled": None, "default": None,
+                 "raises": False}]
+    return []
 
 
 def module_source(m):
-    src = "import c14_rt\n\n"
+    src = "import abc\nimport c14_rt\n\n"
     if m.get("junk"):
         src += "LIMIT = 3\n\ndef helper():\n    return LIMIT\n\n"
     if m["fail"] == "SyntaxError":
@@ -541,8 +701,7 @@ def write_package(pkg, base):
     """returns {stem: path} of the files the glob of the selector will return (unordered)."""
     import shutil
     d = pkg_dir(pkg, base)
-    shutil.rmtree(os.path.join(base, pkg["name"] + "_top"), ignore_errors=True)
-    shutil.rmtree(os.path.join(base, pkg["name"]), ignore_errors=True)
+    remove_package(pkg, base)
     if pkg["kind"] == "missing":
         return d
     if pkg["kind"] == "missing_mid":
@@ -553,16 +712,19 @@ def write_package(pkg, base):
     if pkg["dotted"]:
         top = os.path.dirname(d)
         os.makedirs(top, exist_ok=True)
-        with open(os.path.join(top, "__init__.py"), "w") as f:
-            f.write(top_init_source(pkg))
+        if not top_is_namespace(pkg):
+            with open(os.path.join(top, "__init__.py"), "w") as f:
+                f.write(top_init_source(pkg))
         if pkg["kind"] == "missing_sub":
             return d
-    os.makedirs(d, exist_ok=True)
+    dirs = pkg_dirs(pkg, base)
+    for x in dirs:
+        os.makedirs(x, exist_ok=True)
     if not pkg["namespace"] or pkg_fails(pkg["kind"]):
         with open(os.path.join(d, "__init__.py"), "w") as f:
             f.write(init_source(pkg))
     for m in pkg["modules"]:
-        with open(os.path.join(d, m["stem"] + ".py"), "w") as f:
+        with open(os.path.join(dirs[portion_of(pkg, m)], m["stem"] + ".py"), "w") as f:
             f.write(module_source(m))
     extra = {"cname": "Hid", "mode": "hidden mode", "mn_none": False, "disabled": None, "default": True, "raises": False}
     if pkg["hidden"]:
@@ -582,13 +744,26 @@ def write_package(pkg, base):
     return d
 
 
-def observed_files(pkg, base):
-    """the *.py files of the package directory in directory order (what glob returns)."""
-    d = pkg_dir(pkg, base)
-    if pkg_absent(pkg["kind"]) or not os.path.isdir(d):
+def remove_package(pkg, base):
+    import shutil
+    for b in (base, second_root(base)):
+        shutil.rmtree(os.path.join(b, pkg["name"] + "_top"), ignore_errors=True)
+        shutil.rmtree(os.path.join(b, pkg["name"]), ignore_errors=True)
+
+
+def dir_listing(d):
+    """the *.py files of a directory in directory order (what glob(d + "/*.py") returns)."""
+    if not os.path.isdir(d):
         return []
     return [os.path.join(d, n) for n in os.listdir(d)
             if n.endswith(".py") and not n.startswith(".") and os.path.isfile(os.path.join(d, n))]
+
+
+def observed_files(pkg, base):
+    d = pkg_dir(pkg, base)
+    if pkg_absent(pkg["kind"]):
+        return []
+    return dir_listing(d)
 
 
 # ---------------------------------------------------------------------------
@@ -598,8 +773,9 @@ def classify_exc(e):
     msg = " ".join(str(a) for a in getattr(e, "args", ()))
     if type(e) is RuntimeError:
         return 4
-    if "c14-ctor-fail" in msg:
-        return 3
+    if "c14-ctor-fail" in msg or (isinstance(e, TypeError) and "c14_ctor_fail" in msg):
+        return 3        # raised by the class's code, or by the interpreter on its behalf (abstract class,
+                        # missing constructor argument: the message names c14_ctor_fail_step / c14_ctor_fail_arg)
     if "c14-pkg-fail" in msg:
         return 1
     if "c14-import-fail" in msg or isinstance(e, SyntaxError):
@@ -628,17 +804,29 @@ def forget_modules(name):
 
 def probe_import(name):
     """what importlib.import_module(name) does -- the input of the model's test on e.name, observed like the glob
-    order: ["ok"] | ["importerror", isinstance(e, ModuleNotFoundError), e.name] | ["other"]"""
+    order: ["ok"] | ["importerror", isinstance(e, ModuleNotFoundError), e.name] | ["other"];
+    and, for a package object without __file__ (an implicit package), its __path__ entry by entry (else None)"""
     import importlib
+    nspath = None
     try:
-        importlib.import_module(name)
+        mod = importlib.import_module(name)
         r = ["ok"]
+        if not getattr(mod, "__file__", None):
+            nspath = [str(x) for x in (getattr(mod, "__path__", None) or [])]
     except ImportError as e:
         r = ["importerror", isinstance(e, ModuleNotFoundError), e.name if isinstance(e.name, str) else None]
     except Exception:
         r = ["other"]
     forget_modules(name)
-    return r
+    return r, nspath
+
+
+def arrangements(path):
+    """the entries of a __path__ (repetitions included), once for every order of its distinct directories: the
+    selector scans them in the iteration order of a set, which is not specified (the model keeps first occurrences)"""
+    import itertools
+    distinct = list(dict.fromkeys(path))
+    return [sorted(path, key=perm.index) for perm in itertools.islice(itertools.permutations(distinct), 24)]
 
 
 class Driver:
@@ -658,8 +846,10 @@ class Driver:
         self.nt = ntcore.NetworkTableInstance.getDefault()
         self.base = base
         os.makedirs(base, exist_ok=True)
-        if base not in sys.path:
-            sys.path.insert(0, base)
+        os.makedirs(second_root(base), exist_ok=True)
+        while base in sys.path:
+            sys.path.remove(base)
+        sys.path.insert(0, base)
         hal.simulation.pauseTiming()
         hal.simulation.restartTiming()
         rt = types.ModuleType("c14_rt")
@@ -682,7 +872,23 @@ class Driver:
             def on_disable(self):
                 log.append(("dis", self._c14[0], self._c14[1], 0))
 
+        def attempt(cls):
+            """called by class machinery that gets control before __init__ (a __new__, a metaclass __call__)"""
+            log.append(("ctor", cls._c14[0], cls._c14[1], 0))
+
+        class FailingMeta(type):
+            def __call__(cls, *a, **kw):
+                attempt(cls)
+                raise ArithmeticError("c14-ctor-fail in the metaclass of %s.%s" % (cls._c14[0], cls._c14[1]))
+
+        class PassingMeta(type):
+            def __call__(cls, *a, **kw):
+                return super().__call__(*a, **kw)
+
         rt.Base = Base
+        rt.attempt = attempt
+        rt.FailingMeta = FailingMeta
+        rt.PassingMeta = PassingMeta
         sys.modules["c14_rt"] = rt
         self.log = log
         self.keep = []
@@ -811,13 +1017,32 @@ class Driver:
         return t0, wakes, ended, problem
 
     def run_case(self, case):
+        """sys.path is arranged as the layout wants it (the package's root listed again, a second root) for the
+        duration of the case and restored afterwards"""
+        import importlib
+        saved = list(sys.path)
+        base, base2 = self.base, second_root(self.base)
+        try:
+            k = ns_kind(case["pkg"])
+            if k in ("split", "split_twice"):
+                sys.path.insert(1, base2)
+            if k == "thrice":
+                sys.path.insert(1, base)
+            if k in ("twice", "thrice", "split_twice"):
+                sys.path.append(base)
+            return self._run_case(case)
+        finally:
+            sys.path[:] = saved
+            importlib.invalidate_caches()
+
+    def _run_case(self, case):
         import importlib
         wpilib = self.wpilib
         pkg = case["pkg"]
         self.reset_nt()
         d = write_package(pkg, self.base)
         importlib.invalidate_caches()
-        imp = probe_import(pkg_import_name(pkg))
+        imp, nspath = probe_import(pkg_import_name(pkg))
         files = observed_files(pkg, self.base)
         self.DS.setFmsAttached(bool(case["fms"]))
         self.DS.setEnabled(False)
@@ -825,13 +1050,13 @@ class Driver:
         self.DS.notifyNewData()
         wpilib.DriverStation.refreshData()
         del self.log[:]
-        obs = {"imp": imp, "files": files, "err": 0, "exc": None, "ctors": [], "modes": [], "options": [], "default": "",
+        obs = {"imp": imp, "files": files, "nspath": nspath,
+               "listing": {x: dir_listing(x) for x in (nspath or [])}, "failing": [], "err": 0, "exc": None, "ctors": [], "modes": [], "options": [], "default": "",
                "events": [], "attrerr": False, "mops": [], "problem": None}
-        pdir = pkg_dir(pkg, self.base)
-
         def fpath(stem):
-            return os.path.join(pdir, stem + ".py")
+            return mod_file(pkg, self.base, stem)
 
+        obs["failing"] = [[fpath(m["stem"]), c["cname"]] for m in pkg.get("modules", []) for c in m["classes"] if c.get("raises")]
         from robotpy_ext.autonomous.selector import AutonomousModeSelector
         name = pkg_import_name(pkg)
         s = None
@@ -901,9 +1126,7 @@ class Driver:
                     obs["events"].append([3, [fpath(stem), cn], 0])      # a constructor call after start-up
         # forget the package so that nothing is cached between cases
         forget_modules(name)
-        import shutil
-        shutil.rmtree(os.path.join(self.base, pkg["name"] + "_top"), ignore_errors=True)
-        shutil.rmtree(os.path.join(self.base, pkg["name"]), ignore_errors=True)
+        remove_package(pkg, self.base)
         return obs
 
 
@@ -962,33 +1185,47 @@ def q(s):
     return coq_string(s)
 
 
+BEHAVIOUR = {None: "Constructs", "abc_concrete": "Constructs", "abc_implemented": "Constructs", "meta_ok": "Constructs",
+             "new_ok": "Constructs", "init": "InitRaises", "new": "NewRaises", "meta": "MetaCallRaises",
+             "abstract": "AbstractClass", "abstract_plain": "AbstractClass", "needs_args": "NeedsArguments",
+             "needs_args_plain": "NeedsArguments"}
+
+
 def cls_term(c):
-    return "mkCls %s %s %s %s %s" % (q(c["cname"]), coq_opt(c["mode"], q), coq_bool(truth(c["disabled"])),
-                                      coq_bool(truth(c["default"])), coq_bool(c["raises"]))
+    return "mkCls %s %s %s %s (fails %s)" % (q(c["cname"]), coq_opt(c["mode"], q), coq_bool(truth(c["disabled"])),
+                                             coq_bool(truth(c["default"])), BEHAVIOUR[how_of(c)])
 
 
 def package_term(case, obs):
-    """(package name, what import_module(name) did): the model decides what that means"""
+    """(package name, [what import_module(name) did]): the model decides what that means.  One alternative, except
+    for an implicit package with several directories: one per order in which they may be scanned"""
     pkg = case["pkg"]
     name = q(pkg_import_name(pkg))
     imp = obs["imp"]
     if imp[0] == "importerror":
-        return "%s, (ImportRaisesImportError %s %s)" % (name, coq_bool(imp[1]), coq_opt(imp[2], q))
+        return "%s, [ImportRaisesImportError %s %s]" % (name, coq_bool(imp[1]), coq_opt(imp[2], q))
     if imp[0] == "other":
-        return "%s, ImportRaisesOther" % name
+        return "%s, [ImportRaisesOther]" % name
     by_stem = {m["stem"]: m for m in pkg["modules"]}
-    mods = []
-    for f in obs["files"]:
+
+    def mod_term(f):
         stem = os.path.basename(f)[:-3]
         if stem == "__init__":
             cl, fail = pkg["init_classes"], False
         else:
             m = by_stem[stem]
             cl, fail = m["classes"], bool(m["fail"])
+        cl = [x for c in cl for x in [c] + helper_members(c)]
         cl = sorted(cl, key=lambda c: c["cname"])          # inspect.getmembers order
-        mods.append("mkMod %s %s %s %s" % (q(stem), q(f), coq_bool(fail),
-                                           coq_list([cls_term(c) for c in (cl if not fail else [])])))
-    return "%s, (Imported %s)" % (name, coq_list(mods))
+        return "mkMod %s %s %s %s" % (q(stem), q(f), coq_bool(fail),
+                                      coq_list([cls_term(c) for c in (cl if not fail else [])]))
+
+    if obs.get("nspath") is not None:
+        # an implicit package: its __path__ entry by entry, each with the glob of the directory
+        por = {d: "mkPortion %s %s" % (q(d), coq_list([mod_term(f) for f in obs["listing"][d]])) for d in set(obs["nspath"])}
+        return "%s, %s" % (name, coq_list(["ImportedNamespace %s" % coq_list([por[d] for d in arr])
+                                           for arr in arrangements(obs["nspath"])]))
+    return "%s, [Imported %s]" % (name, coq_list([mod_term(f) for f in obs["files"]]))
 
 
 def sel_term(dash, choice):
@@ -1018,14 +1255,15 @@ def call_term(c):
 
 
 def obs_term(obs):
-    return "mkObs %s %s %s %s %s %s %s" % (
+    return "mkObs %s %s %s %s %s %s %s %s" % (
         coq_nat(obs["err"]),
         coq_list([call_term(c) for c in obs["ctors"]]),
         coq_list(["(%s, %s)" % (q(k), call_term(v)) for k, v in obs["modes"]]),
         coq_list([q(s) for s in obs["options"]]),
         q(obs["default"]),
         coq_list(["(%s, %s, %s)" % (coq_nat(k), call_term(i), coq_Z(t)) for k, i, t in obs["events"]]),
-        coq_bool(obs["attrerr"]))
+        coq_bool(obs["attrerr"]),
+        coq_list([call_term(c) for c in obs.get("failing", [])]))
 
 
 def case_term(case, obs):
@@ -1062,9 +1300,8 @@ def oracle(case, obs, base):
     pkg = case["pkg"]
     fms = case["fms"]
     kind = pkg["kind"]
-    pdir = pkg_dir(pkg, base)
     need = needed_classes(case)
-    ident = lambda stem, c: [os.path.join(pdir, stem + ".py"), c["cname"]]
+    ident = lambda stem, c: [mod_file(pkg, base, stem), c["cname"]]
     names = [c["mode"] for _, c in need]
     dup = len(set(names)) != len(names)
     healthy = [(s, c) for s, c in need if not c["raises"]]
@@ -1076,6 +1313,8 @@ def oracle(case, obs, base):
     raised = obs["err"] != 0
     if obs.get("imp") is not None and obs["imp"] != expected_import(pkg):
         return v        # the layout on disk is not the one its kind describes (reported as a broken obligation)
+    if "nspath" in obs and (sorted(obs["nspath"]) if obs["nspath"] is not None else None) != expected_nspath(pkg, base):
+        return v        # likewise: the package's __path__ is not the one the layout is meant to produce
     if obs["err"] == 9:
         v.append(("unexpected-exception", "AutonomousModeSelector(...) raised an unrelated exception: %s" % obs["exc"]))
         return v
@@ -1085,6 +1324,11 @@ def oracle(case, obs, base):
                     "import-failure-not-raised" if import_fault else "ctor-failure-not-raised" if ctor_fault else
                     "package-import-failure-not-raised")
             text = "no FMS, layout has a start-up fault (%s) but the constructor did not raise" % what
+            if what == "ctor-failure-not-raised":
+                s0, c0 = [(s, c) for s, c in need if c["raises"]][0]
+                text = ("no FMS, mode class %s.%s (MODE_NAME %r, not DISABLED) cannot be constructed (%s) but "
+                        "AutonomousModeSelector() did not raise; constructor calls seen: %s"
+                        % (s0, c0["cname"], c0["mode"], CTOR_TEXT[how_of(c0)], [c[1] for c in obs["ctors"]]))
             if initfail:
                 text = ("no FMS, the package %s exists but importing it fails (%s: import_module raises %s), and "
                         "AutonomousModeSelector() did not raise: a failing import was taken for a missing package"
@@ -1096,20 +1340,30 @@ def oracle(case, obs, base):
                           "(import_module raises %s), yet the constructor raised %s"
                           % (pkg_import_name(pkg), import_text(obs.get("imp")), obs["exc"])))
             else:
-                v.append(("raised-without-fault", "no FMS, fault-free layout, constructor raised %s" % obs["exc"]))
+                text = "no FMS, fault-free layout, constructor raised %s" % obs["exc"]
+                if obs.get("nspath") is not None:
+                    text += " (implicit package, __path__ = %s; constructor calls %s)" % (obs["nspath"], [c[1] for c in obs["ctors"]])
+                v.append(("raised-without-fault", text))
     else:
         if raised:
             v.append(("fms-raised", "FMS attached but the constructor raised %s" % obs["exc"]))
     if raised:
         return v
-    # instantiated exactly once each
-    want = sorted(ident(s, c) for s, c in need)
-    got = sorted(obs["ctors"])
-    if want != got:
+    # instantiated exactly once each.  (The attempt to call a class that cannot be constructed may or may not leave
+    # a trace in the log -- it can fail before any code of the class runs -- and how the selector finds out is not
+    # the property's business: at most one attempt each.)
+    failing = [ident(s, c) for s, c in need if c["raises"]]
+    want = sorted(ident(s, c) for s, c in healthy)
+    got = sorted(x for x in obs["ctors"] if x not in failing)
+    again = [x for x in failing if obs["ctors"].count(x) > 1]
+    if want != got or again:
         missing = [x for x in want if x not in got]
-        extra = [x for x in got if x not in want or got.count(x) > 1]
-        v.append(("instantiation-set", "constructor calls differ from the classes with MODE_NAME and not DISABLED: "
-                  "missing %s, unexpected/repeated %s" % (missing[:3], extra[:3])))
+        extra = [x for x in got if x not in want or got.count(x) > 1] + again
+        text = ("constructor calls differ from the classes with MODE_NAME and not DISABLED: "
+                "missing %s, unexpected/repeated %s" % (missing[:3], extra[:3]))
+        if obs.get("nspath") is not None:
+            text += " (implicit package, __path__ = %s)" % (obs["nspath"],)
+        v.append(("instantiation-set", text))
     modes = {k: i for k, i in obs["modes"]}
     # the two open findings (known_findings.json) get their own fingerprints; the generic clauses below are
     # not evaluated on such layouts, so that one root cause is reported once
@@ -1163,6 +1417,13 @@ def oracle(case, obs, base):
         return v
     v += oracle_lifecycle(obs, modes)
     return v
+
+
+CTOR_TEXT = {"init": "its __init__ raises", "new": "its __new__ raises", "meta": "its metaclass's __call__ raises",
+             "abstract": "it is an abstract class (abc, an abstract method is not implemented): TypeError",
+             "abstract_plain": "it is an abstract class (abc, an abstract method is not implemented): TypeError",
+             "needs_args": "its __init__ wants an argument the selector does not pass: TypeError",
+             "needs_args_plain": "its __init__ wants an argument the selector does not pass: TypeError"}
 
 
 def import_text(imp):
@@ -1341,8 +1602,7 @@ def resolve_dir(case, base):
 
 def key_clash(case, base):
     need = needed_classes(case)
-    d = pkg_dir(case["pkg"], base)
-    ren = set(c["cname"] + "_" + os.path.join(d, s + ".py") for s, c in need)
+    ren = set(c["cname"] + "_" + mod_file(case["pkg"], base, s) for s, c in need)
     return any(c["mode"] in ren for _, c in need)
 
 
@@ -1389,6 +1649,17 @@ def shrink(case, fails):
             c = copy.deepcopy(cur)
             c["pkg"]["init_classes"] = []
             cands.append(c)
+        if ns_kind(cur["pkg"]) != "once":
+            for simpler in {"thrice": ["twice"], "split_twice": ["twice", "split"]}.get(ns_kind(cur["pkg"]), []) + ["once"]:
+                c = copy.deepcopy(cur)
+                c["pkg"]["nspath"] = simpler
+                cands.append(c)
+        for i, m in enumerate(cur["pkg"].get("modules", [])):
+            for j, x in enumerate(m["classes"]):
+                if x.get("how") in CTOR_FLAVOURS:
+                    c = copy.deepcopy(cur)
+                    c["pkg"]["modules"][i]["classes"][j]["how"] = None
+                    cands.append(c)
         for c in cands:
             budget -= 1
             if budget <= 0:
@@ -1432,6 +1703,10 @@ def run(ctx):
     pairs = [(c, o) for c, o in pairs if printable(o)]
     wrong = [(c["idx"], c["pkg"]["kind"], o.get("imp")) for c, o in pairs if o.get("imp") != expected_import(c["pkg"])]
     ctx.obligation("corr:import_module(<package>) does on every layout what the layout's kind says", not wrong, repr(wrong[:3]))
+    wrongp = [(c["idx"], ns_kind(c["pkg"]), o.get("nspath")) for c, o in pairs
+              if (sorted(o["nspath"]) if o.get("nspath") is not None else None) != expected_nspath(c["pkg"], base)]
+    ctx.obligation("corr:the __path__ of every implicit package lists the directories its layout says, repetitions "
+                   "included (no __file__), every other package has a __file__", not wrongp, repr(wrongp[:3]))
     problems = [(c["idx"], o["problem"]) for c, o in pairs if o.get("problem")]
     ctx.obligation("corr:no call of the lifecycle crashed or hung", not problems, repr(problems[:3]))
     for c, o in pairs:
@@ -1445,6 +1720,15 @@ def run(ctx):
             if nchg:
                 ctx.count("ops:...and-another-chooser-selection-is-in-force", nchg)
         ctx.count("modules=%d" % len(c["pkg"].get("modules", [])))
+        if o.get("nspath") is not None:
+            ctx.count("implicit-package:__path__=%s" % ns_kind(c["pkg"]))
+            if len(o["nspath"]) != len(set(o["nspath"])) and o["err"] == 0 and o["ctors"]:
+                ctx.count("implicit-package:a-directory-listed-again,built,>=1-constructor-call")
+        for _, x in needed_classes(c):
+            ctx.count("needed-class:constructor=%s" % (how_of(x) or "plain"))
+        first_ctor_fault = [x for _, x in needed_classes(c) if x["raises"]]
+        if first_ctor_fault and not c["fms"] and o["err"] == 3:
+            ctx.count("no-fms:raised-by-constructor-failure=%s" % how_of(first_ctor_fault[0]))
         ctx.count("modes=%s" % (len(o["modes"]) if len(o["modes"]) < 4 else ">=4"))
         for op in o["mops"]:
             ctx.count("op=%s" % op[0])
@@ -1473,7 +1757,12 @@ def run(ctx):
         "distinct_nontrivial": sum(1 for c, o in pairs if nontrivial(c, o)),
         "rule": "layouts: corpus, %d hand-written edge cases, then seeded random packages (0-4 modules, 0-4 classes "
                 "each, MODE_NAME/DISABLED/DEFAULT with truthy/falsy spellings, duplicates, failing imports of 5 kinds, "
-                "raising constructors, missing package / missing sub-package, 12%% packages that exist but whose "
+                "constructors that fail in one of %d ways (__init__/__new__/metaclass __call__ raising, abstract class "
+                "via abc with and without a __new__ that logs the attempt, __init__ wanting an argument) and healthy "
+                "classes with the same machinery (abc without abstract methods / with them implemented, delegating "
+                "metaclass, own __new__), implicit namespace packages whose __path__ has one directory, the same "
+                "directory two or three times (sys.path lists it again) or two directories contributing different "
+                "modules (flat and under an implicit parent package), missing package / missing sub-package, 12%% packages that exist but whose "
                 "import fails in one of %d ways (own or parent's __init__: exception, missing unrelated dependency, "
                 "missing sub-module, missing module of the parent package, ImportError without a name / naming another "
                 "module), namespace and dotted "
@@ -1484,7 +1773,7 @@ def run(ctx):
                 "histories of 2-4 start()/periodic() periods mostly NOT followed by disable() with the chooser selection "
                 "changed in between (another mode or 'None'), 15%% of other start() periods not followed by disable(), "
                 "12%% otherwise ill-formed; non-trivial = built, >= 2 modes and >= 3 "
-                "callbacks delivered" % (len(EDGE_CASES), len(PKG_FAIL_KINDS)),
+                "callbacks delivered" % (len(EDGE_CASES), len(CTOR_FAILS), len(PKG_FAIL_KINDS)),
         "corpus_cases": ncorpus,
         "samples": [{"fms": c["fms"], "modules": [(m["stem"], m["fail"], [(x["cname"], x["mode"]) for x in m["classes"]])
                                                    for m in c["pkg"].get("modules", [])],
@@ -1549,7 +1838,7 @@ def violation_of(case, obs, base, known=False):
         return None
     fp, text = vs[0]
     return {"kind": "input", "what": "fms=%s: %s" % (case["fms"], text), "fingerprint": fp, "case": case,
-            "observed": {k: obs.get(k) for k in ("imp", "err", "exc", "ctors", "modes", "options", "default", "events", "mops", "attrerr", "problem")}}
+            "observed": {k: obs.get(k) for k in ("imp", "nspath", "err", "exc", "ctors", "modes", "options", "default", "events", "mops", "attrerr", "problem")}}
 
 
 def search_violation(ctx, base, bad, cases, obs):
@@ -1627,6 +1916,12 @@ def replay(ctx, obj):
     print("calls=%s" % (case["ops"],))
     print("ops=%s   (run: [clock us, autonomous+enabled, disable() called during this pass] per loop pass)" % (o["mops"],))
     print("package=%s kind=%s: import_module() raises %s" % (pkg_import_name(case["pkg"]), case["pkg"]["kind"], import_text(o.get("imp"))))
+    if o.get("nspath") is not None:
+        print("implicit package (no __file__), __path__ = %s" % (o["nspath"],))
+    for m in case["pkg"].get("modules", []):
+        for c in m["classes"]:
+            if c.get("raises"):
+                print("class %s.%s cannot be constructed: %s" % (m["stem"], c["cname"], CTOR_TEXT[how_of(c)]))
     print("exception=%s constructor calls=%s" % (o["exc"], [c[1] for c in o["ctors"]]))
     print("modes=%s options=%s default=%r" % ([(k, i[1]) for k, i in o["modes"]], o["options"], o["default"]))
     print("callbacks=%s" % ([(k, i[1], t) for k, i, t in o["events"]],))
